@@ -7,7 +7,6 @@ from .core import log
 
 def run(ctx):
     ctx.model_check("C02_group", "MCGroupLaw", workers=8, heap="4g")
-    ctx.model_check("C02_group", "MCGroupLaw", cfg="MCGroupLawNeg", expect_violation="FormulasRefineLaw", workers=4)
     ctx.model_check("C02_group", "MCEdwards", workers=8, heap="4g")
     b = ctx.build_harness("harness")
     tdir = os.path.join(ctx.work, "traces")
